@@ -267,6 +267,29 @@ pub fn run(ctx: &mut Ctx) {
         }
     }
 
+    // --- KDF purity: one z through many klen consecutively, then one klen through many z
+    if ctx.shard == 0 {
+        let mut pk = ctx.prng("kdf-consecutive");
+        let z = pk.bytes(64);
+        for klen in [1usize, 32, 31, 64, 33, 32, 1, 96, 95, 32] {
+            ctx.eval();
+            ctx.class("kdf_same_z_consecutive");
+            let e = r3::kdf(&z, klen);
+            match guard(|| gm_sm2::util::kdf(&z, klen)) {
+                Outcome::Ret(v) if v == e => {}
+                o => ctx.violation(&format!("kdf:same-z-consecutive:{}", if o.is_ret() { "wrong-bytes" } else { o.class() }), json!({"z": hx(&z), "klen": klen})),
+            }
+        }
+        for _ in 0..10 {
+            let z2 = pk.bytes(64);
+            ctx.eval();
+            let e = r3::kdf(&z2, 32);
+            match guard(|| gm_sm2::util::kdf(&z2, 32)) {
+                Outcome::Ret(v) if v == e => {}
+                o => ctx.violation(&format!("kdf:same-klen-consecutive:{}", if o.is_ret() { "wrong-bytes" } else { o.class() }), json!({"z": hx(&z2)})),
+            }
+        }
+    }
     // --- KDF: every klen 1..=1100 for several |z|
     let mut prng = ctx.prng("kdf");
     idx = 0;
